@@ -333,7 +333,20 @@ def gen_bad(tier, r):
         s = "".join(r.choice(alphabet) for _ in range(r.choice([1, 2, 3, 4, 6, 9])))
         fmt = r.choice(NUM_FORMATS + ["bool", "bool"])
         cases.append((fmt,) + r.choice([(None, None, None), (0, 100, 1), (0, 50, 0.5)]) + (s,))
-    return cases
+    return [c for c in cases if in_domain(c[4])]
+
+
+def in_domain(val):
+    """exponent range kept far inside Emin/Emax (not modelled) and inside float range"""
+    try:
+        d = Decimal(val)
+    except Exception:  # noqa
+        return True
+    if not d.is_finite():
+        return True
+    if d == 0:
+        return abs(d.as_tuple().exponent) < 400
+    return -400 < d.adjusted() < 300 and d.as_tuple().exponent > -1200
 
 
 def rand_dec(r):
